@@ -1039,6 +1039,11 @@ impl Circuit {
                 });
             }
             // second part of condition 4
+            if inputs.is_empty() {
+                // only possible for XOR: all inputs cancelled out (x ⊕ x ≡ ⊥)
+                gate_map[index] = Literal::FALSE ^ neg_out;
+                return Ok(());
+            }
             if let [l] = &inputs[..] {
                 gate_map[index] = *l ^ neg_out;
                 return Ok(());
